@@ -248,7 +248,22 @@ func compileClass(s string) string {
 func pinnedC01() []*pgen.Case {
 	return []*pgen.Case{pgen.PinnedPkgShadow("pin_pkg_shadow"), pgen.PinnedHelperRedeclared("pin_helper_redeclared"), pinnedNonComparable("pin_update_noncomparable"), pinnedGlobalFile("pin_global_file"),
 		pinnedVarsElsewhere("pin_vars_elsewhere", "../gen/out.go", "vcase/pin_vars_elsewhere/gen"),
-		pinnedVarsElsewhere("pin_vars_elsewhere_named", "./sub/out.go", "vcase/pin_vars_elsewhere_named/p/sub:other")}
+		pinnedVarsElsewhere("pin_vars_elsewhere_named", "./sub/out.go", "vcase/pin_vars_elsewhere_named/p/sub:other"),
+		pinnedHelperNameClash("pin_helper_clash_func", "// goverter:output:format function\n// goverter:output:file ./p.gen.go\n", false),
+		pinnedHelperNameClash("pin_helper_clash_struct", "// goverter:output:file ./p.gen.go\n", false),
+		pinnedHelperNameClash("pin_helper_clash_vars", "", true)}
+}
+
+// pinnedHelperNameClash: a declared method / variable has the very name goverter would give to a generated helper.
+func pinnedHelperNameClash(name, lines string, vars bool) *pgen.Case {
+	types := "type In struct{ A Inner }\ntype Out struct{ A Inner2 }\ntype Inner struct{ V int }\ntype Inner2 struct{ V int }\ntype Inner3 struct{ V int }\ntype Inner4 struct{ W int }\n"
+	src := "package p\n\n// goverter:converter\n" + lines + "type Conv interface {\n\tConvert(source In) Out\n\t// goverter:map V W\n\tpInnerToPInner2(source Inner3) Inner4\n}\n\n" + types
+	if vars {
+		src = "package p\n\n// goverter:variables\nvar (\n\tConvert func(source In) Out\n\t// goverter:map V W\n\tpInnerToPInner2 func(source Inner3) Inner4\n)\n\n" + types
+	}
+	c := pgen.RawCase(name, map[string]string{"p/input.go": src}, nil, []string{"./p"})
+	c.Feature("tag", "helper-name-clash")
+	return c
 }
 
 // pinnedVarsElsewhere: a variables block whose output file lives in ANOTHER package and whose conversions need generated
